@@ -91,10 +91,47 @@ class Engine(_Base, ExprMixin, CallMixin, StmtMixin):
         self.unsupported(e, 'comprehension')
 
     def do_await(self, st, e):
-        h = self.reg.externals.get('$await')
-        if h is None:
-            self.unsupported(e, 'await')
-        return h(self, st, e)
+        """`await x`: a scheduling point.  The awaited expression is evaluated; obligations attached to this point
+        (contract.awaits[k]['check']) are emitted on the state just before control is given up; then everything the
+        function does not own is havocked (other tasks / callbacks may run), the result is an arbitrary value of the
+        declared type, and the await may raise CancelledError or any declared exception."""
+        c = self.cur_contract
+        if st.depth != 0 or c is None:
+            self.unsupported(e, 'await inside an inlined callee')
+        awaits = [m for m in ast.walk(self.cur_info.node) if isinstance(m, ast.Await)]
+        awaits.sort(key=lambda m: (m.lineno, m.col_offset))
+        k = [i for i, m in enumerate(awaits) if m is e][0]
+        spec = c.awaits.get(k)
+        if spec is None:
+            self.unsupported(e, 'await #%d has no entry in the contract (awaits={...})' % k)
+        out = []
+        self._awaiting = True
+        try:
+            results = self.eval(st, e.value)
+        finally:
+            self._awaiting = False
+        for s, v in results:
+            if s.exc is not None:
+                out.append((s, None))
+                continue
+            if spec.get('check') is not None and not self.collect_only:
+                for nm, g in spec['check'](self, s, self.entry_state, self.entry_env):
+                    self.check(s, g, '%s/await%d[%s]' % (c.target, k, nm))
+            if spec.get('havoc', True):
+                for key in list(s.heap.keys()):
+                    self.heap_set(s, key, z3.Const(fresh_name('Ha:' + ':'.join(map(str, key))), s.heap[key].sort()))
+                a = z3.Int(fresh_name('alloc'))
+                s.assume(a >= s.alloc)
+                s.alloc = a
+                for inv in spec.get('assume', []):
+                    s.assume(self.eval_clause(s, inv, self.visible_env(s), self.cur_info, old_st=self.entry_state))
+            for cls in ['asyncio:CancelledError'] + list(spec.get('raises', [])):
+                s2 = s.copy()
+                self.raise_exc(s2, self.resolve_class_name(self.cur_info, cls))
+                out.append((s2, None))
+            rty = spec.get('result')
+            out.append((s, VNone() if rty is None else self.fresh_val(s, rty, 'awaited')))
+        return out
 
     def do_yield(self, st, e):
         h = self.reg.externals.get('$yield')
@@ -338,8 +375,23 @@ class Engine(_Base, ExprMixin, CallMixin, StmtMixin):
                     if cond != MAY:
                         g = z3.Not(self.eval_clause(s, cond, env, info, old_st=entry))
                         self.check(s, g, '%s/raises[%s]/iff' % (name, cls), note='normal return although: %s' % cond)
+                lemmas = []
+                if getattr(c, 'exit_lemmas', None) is not None:
+                    # intermediate assertions: proved, then available to the clauses that follow (cut rule)
+                    for nm, g in c.exit_lemmas(self, s, entry, env, result):
+                        self.check(s, g, '%s/lemma[%s]' % (name, nm))
+                        s.assume(g)
+                        lemmas.append(g)
                 for nm, cl in c.ensures.items():
                     g = self.eval_clause(s, cl, env, info, old_st=entry, result=result)
+                    if lemmas:
+                        # focused attempt: the precondition and the lemmas alone (a subset of the assumptions) often suffice
+                        focus = State()
+                        focus.pc = list(entry.pc) + lemmas + [f for f in s.pc if f.get_id() in s.fact_ids][:0]
+                        v, b, m, dt = prove(focus.pc, g, timeout=15000)
+                        if v == 'proved':
+                            self.obligations.append(Obligation('%s/ensures[%s]' % (name, nm), 'proved', b, dt, note=str(cl)))
+                            continue
                     self.check(s, g, '%s/ensures[%s]' % (name, nm), note=str(cl))
                 normals.append((s, result))
                 if c.at_exit is not None:
